@@ -94,6 +94,9 @@ type runner struct {
 	mids    []string
 	origIn  map[string][]byte
 	origOut map[string][]byte
+	// message object of the last SetUnread, reused when the next operation marks the same message again
+	lastOp                             Op
+	lastHandle, nextHandle, prevHandle *fbb.Message
 }
 
 func (r *runner) list(fn func() ([]*fbb.Message, error)) (map[string]*fbb.Message, bool) {
@@ -260,12 +263,17 @@ func (r *runner) apply(op Op) (err error) {
 		if op.Op == "SetUnreadOut" {
 			fn = r.h.Outbox
 		}
+		// two markings in a row of the same message use the same loaded message object (no listing in between)
+		if r.lastOp.Op == op.Op && r.lastOp.M == op.M && r.lastHandle != nil {
+			return mailbox.SetUnread(r.lastHandle, op.Flag)
+		}
 		msgs, err := fn()
 		if err != nil {
 			return err
 		}
 		for _, m := range msgs {
 			if m.MID() == op.M {
+				r.nextHandle = m
 				return mailbox.SetUnread(m, op.Flag)
 			}
 		}
@@ -295,7 +303,14 @@ func safeApply(r *runner, op Op) (err error, panicked string) {
 			panicked = fmt.Sprint(p)
 		}
 	}()
-	return r.apply(op), ""
+	r.nextHandle = nil
+	err = r.apply(op)
+	r.lastOp, r.lastHandle = op, r.nextHandle
+	if r.nextHandle == nil && (op.Op == "SetUnread" || op.Op == "SetUnreadOut") && err == nil {
+		r.lastHandle = r.prevHandle // a reused handle stays usable for a third marking
+	}
+	r.prevHandle = r.lastHandle
+	return err, ""
 }
 
 // runScenario executes ops on a fresh mailbox and returns the recorded events.
@@ -379,6 +394,9 @@ func randomScenario(u *Universe, rng *rand.Rand, n, length int) Scenario {
 		default:
 			if inb[m] {
 				sc.Ops = append(sc.Ops, Op{Op: "SetUnread", M: m, Flag: rng.Intn(2) == 0})
+				for rng.Intn(3) == 0 { // marked again at once, through the same message object
+					sc.Ops = append(sc.Ops, Op{Op: "SetUnread", M: m, Flag: rng.Intn(2) == 0})
+				}
 			}
 		}
 	}
